@@ -4,9 +4,10 @@ Executable model of `psparser.PSStackParser.nextobject` with `pdfparser.PDFStrea
 (`settings.STRICT = False`, the default).
 
 `feed` handles one token exactly like one iteration of the `while not self.results` loop; since
-`PDFStreamParser.flush` moves the whole operand stack to `results` whenever no array /
-dictionary / procedure is open, the objects `nextobject()` returns one by one are the `results` in
-order.  An exception that escapes from `nextobject` ends the sequence (`error`).
+`PDFStreamParser.flush` moves the operand stack to `results` whenever no array / dictionary /
+procedure is open — holding back up to two trailing integers, which may still become the `n g`
+of a top-level `n g R` and are handed out at PSEOF (`finish`) — the objects `nextobject()` returns
+one by one are the `results` in order.  An exception that escapes from `nextobject` ends the sequence (`error`).
 
 Python operations that are not modelled (they need `str()` / `int()` of arbitrary objects) give
 `error "unmodelled"`; the harness does not claim the tie on those inputs: a dictionary key
@@ -111,7 +112,7 @@ def doKeyword (st : PState) (name : Bytes) : PState :=
   if name == kwR then
     -- (_, _object_id), _ = self.pop(2)
     let n := st.curstack.length
-    if n < 2 then { st with curstack := [], error := some "ValueError" } else
+    if n < 2 then st else                       -- `if len(self.curstack) >= 2:` — otherwise nothing happens
     let st' := { st with curstack := st.curstack.take (n - 2) }
     match st.curstack.drop (n - 2) with
     | [.int v, _] => push st' (.ref v)
@@ -159,6 +160,19 @@ structure Dialect where
 def streamDialect : Dialect := ⟨doKeyword, true⟩      -- PDFStreamParser
 def objDialect : Dialect := ⟨doKeywordP, false⟩        -- PDFParser (PSStackParser.flush does nothing)
 
+/-- how many trailing integers `PDFStreamParser.flush` holds back (at most two; `type(x) is int`, so
+    booleans do not count): they may be the `n g` of a top-level `n g R` -/
+def heldCount (cs : List SObj) : Nat :=
+  match cs.reverse with
+  | .int _ :: .int _ :: _ => 2
+  | .int _ :: _ => 1
+  | _ => 0
+
+/-- `PDFStreamParser.flush`: everything but the held-back integers goes to `results` -/
+def flushHold (st : PState) : PState :=
+  let k := st.curstack.length - heldCount st.curstack
+  { st with results := st.results ++ st.curstack.take k, curstack := st.curstack.drop k }
+
 /-- One iteration of the loop of `PSStackParser.nextobject` for one token. -/
 def feedWith (D : Dialect) (st : PState) (tok : Token) : PState :=
   if st.error.isSome then st else
@@ -193,7 +207,7 @@ def feedWith (D : Dialect) (st : PState) (tok : Token) : PState :=
         | none => st
       else D.doKeyword st name
   if st1.error.isSome then st1
-  else if st1.context.isEmpty && D.flushes then { st1 with results := st1.results ++ st1.curstack, curstack := [] }
+  else if st1.context.isEmpty && D.flushes then flushHold st1
   else st1
 
 def feedAllWith (D : Dialect) (st : PState) (toks : List Token) : PState := toks.foldl (feedWith D) st
@@ -202,8 +216,14 @@ def feedAllWith (D : Dialect) (st : PState) (toks : List Token) : PState := toks
 def feed (st : PState) (tok : Token) : PState := feedWith streamDialect st tok
 def feedAll (st : PState) (toks : List Token) : PState := feedAllWith streamDialect st toks
 
+/-- `PDFStreamParser.nextobject` at PSEOF: integers held back by `flush` were objects after all
+    (unless a container is still open or an exception ended the sequence before). -/
+def finish (st : PState) : PState :=
+  if st.error.isSome || !st.context.isEmpty then st
+  else { st with results := st.results ++ st.curstack, curstack := [] }
+
 /-- Objects `PDFStreamParser(data).nextobject()` returns until PSEOF or an exception. -/
-def objects (toks : List PTok) : PState := feedAll {} (toks.map (·.2))
+def objects (toks : List PTok) : PState := finish (feedAll {} (toks.map (·.2)))
 
 /-! ### `PDFDocument._getobj_parse` / `getobj` for an object found through a cross-reference table -/
 
